@@ -47,7 +47,7 @@ PROPS['C19'] = dict(
          'client case (1 in 62) = real client against the scripted reference server issuing any 32-bit challenge incl. >= 2^31, 0 and '
          '0xffffffff: L message = hash(challenge), raw login = hash(challenge+1 mod 2^32), client enters raw mode after hash(challenge-1). '
          'non-trivial iff password non-empty (unit) / all frames observed (system, client); distinct = hash of choice tape',
-    engine_text='rapidcheck over choice tapes; unit shape + simnet (real iodine + iodined)',
+    engine_text='rapidcheck over choice tapes; unit shape + simnet (real iodine + iodined); passwords via -P or the environment, with % sequences; lost raw login replies (client repeats, server must answer again)',
     bounds='password <= 40 bytes, 32-bit challenges sampled (boundary values always included)',
     trusted_base=TB_SIM + ['refmd5 self-tested against the RFC 1321 vectors at start-up'],
     assumptions=AS_SIM + ['MD5 collisions (2^-128) ignored'],
@@ -73,7 +73,7 @@ PROPS['C18'] = dict(
 )
 
 PROPS['C17'] = dict(
-    bin='c17', sources=['props/c17.cc', 'sim/harness.cc', 'ref/refmisc.cc'], unit_objs=UNIT, engine='rc',
+    bin='c17', sources=['props/c17.cc'] + SIMSRC, unit_objs=UNIT, images=IMGS, engine='rc',
     enum_parts=7, exhaustive_claim=True,
     quick=dict(workers=4, cases=250000, budget=40, min_nontrivial=1000, enum_arg=1),
     thorough=dict(workers=8, cases=3000000, budget=600, min_nontrivial=50000, enum_arg=2),
@@ -86,7 +86,7 @@ PROPS['C17'] = dict(
     exhaustive_text='all strings of length <= 7 over {a,A,b,-,.,*,0} x wildcard flag for validation (1.92 M); all names of '
                     'length <= 7 (quick) / <= 8 (thorough) without empty labels against 13 domains for matching; '
                     '63/64-char label and 128/129-char total boundary constructions',
-    engine_text='exhaustive enumerator + rapidcheck, unit shape',
+    engine_text='exhaustive enumerator + rapidcheck, unit shape; 1 case in 300: dispatch by the real iodined with -b (NS queries for generated names: under the domain -> answered by iodined and not relayed, otherwise relayed and not answered)',
     bounds='names <= 255 characters',
     trusted_base=TB_COMMON + ['ref/refmisc.cc label-wise reference'],
     assumptions=['query names never contain empty labels (the name reader cannot produce them)'],
@@ -191,7 +191,7 @@ PROPS['C14'] = dict(
     bin='c14', sources=['props/c14.cc'] + SIMSRC2, unit_objs=UNIT, images=IMGS, engine='rc',
     quick=dict(workers=8, cases=4000, budget=40, min_nontrivial=100),
     thorough=dict(workers=16, cases=80000, budget=1200, min_nontrivial=5000),
-    rule=SES_RULE + 'C14 mix: 1..3 sessions, duplicates of pending and answered queries with new ids / from other relay addresses, upstream packets addressed to another session (1 in 3 with several sessions). Oracle '
+    rule=SES_RULE + 'C14 mix: 1..3 sessions, duplicates of pending and answered queries with new ids / from other relay addresses, upstream packets addressed to another session (1 in 3 with several sessions), wildcard server domain (1 in 3) with re-deliveries of the same payload under another sub-domain, ping-shaped DNS responses (QR=1) that must not be answered. Oracle '
          '(credit accounting): every query the server read that parses (strict RFC 1035 parser) adds one credit (source, id, name, type); every '
          'answer the server emits must consume one unanswered matching credit; after every server step at most two distinct ping/data '
          'questions per session are unanswered. non-trivial iff a remembered duplicate of a pending query was answered together with the '
@@ -256,7 +256,7 @@ PROPS['C20'] = dict(
          'of them, and to nobody if there is none. unit case (1 in 3) = random put/get sequences on fw_query against the last-16 model. non-trivial iff '
          '> 16 outstanding, an id was reused and an unmatched reply occurred (system) / > 16 puts (unit)',
     exhaustive_text='fw_query_put/get: every prefix of 0..20 distinct-id puts x every sequence of 5 operations over put(id 0..2, requester 0..1) / get(id 0..3) (2.1 M sequences)',
-    engine_text='rapidcheck over choice tapes + bounded exhaustive enumeration; simnet hosting the real iodined with -b; unit shape for fw_query.c',
+    engine_text='rapidcheck over choice tapes + bounded exhaustive enumeration; simnet hosting the real iodined with -b; unit shape for fw_query.c; 1 reply in 5 padded with TXT records to 512..65000 bytes (must arrive unchanged)',
     bounds='<= 20 requesters, <= 80 actions', trusted_base=TB_SIM, assumptions=AS_SIM,
 )
 
@@ -265,7 +265,7 @@ PROPS['C04'] = dict(
     quick=dict(workers=8, cases=3000, budget=40, min_nontrivial=50),
     thorough=dict(workers=16, cases=80000, budget=1200, min_nontrivial=3000),
     rule='case = real iodined (tunnel subnet /8../30 with the server at a generated host position, source checking on (5/6) or off, query type) + '
-         '1..8 honest scripted sessions from distinct IPv4/IPv6 addresses (refproto) + 1..3 third parties + a plan of <= 90 actions generated '
+         '1..8 honest scripted sessions from distinct IPv4/IPv6 addresses (refproto; one in four switches to raw UDP mode and then pings / sends data in raw frames) + 1..3 third parties + a plan of <= 90 actions generated '
          'before execution: honest ping / one-fragment data packet (to the server or another session) / option request; SPOOF = L I S O N R P '
          'data, raw login (wrong response), raw data, raw ping naming a victim session userid but sent from another session\'s or a third party\'s '
          'address; packet on the server tun for a live session, a slot nobody is logged in on, the server, network, broadcast, an outside address; '
@@ -294,7 +294,7 @@ PROPS['C13'] = dict(
          'Oracle: every string given to system() is split on spaces; every word is one of the fixed words of a benign run, a strict dotted quad, or a '
          'decimal integer 201..1500; no control characters. non-trivial iff the login step was reached, the reply parses as four fields and >= 1 '
          'field is not a plain valid value. 1 case in 3 is a unit case: tun_setip / tun_setmtu are called directly with generated address strings, prefix lengths and MTUs, in the Linux flavour and in a second build of tun.c with the BSD command templates (server address on the command line, route add net/prefix); same word oracle (plus quad/prefix)',
-    engine_text='rapidcheck over choice tapes; simnet hosting the real iodine client; scripted server (refproto); system() observed at the shim',
+    engine_text='rapidcheck over choice tapes; simnet hosting the real iodine client; scripted server (refproto); system() observed at the shim; address fields incl. four valid decimal fields with 1..3 dots replaced by another single byte',
     bounds='login replies <= 400 bytes', trusted_base=TB_SIM + ['vbuild.py compiles tun.c a second time with -DFREEBSD (objcopy-renamed bsd_tun_setip / bsd_tun_setmtu)'],
     assumptions=AS_SIM + ['system cases run the Linux build of the client; the BSD command templates (server address on the command line, route add) are exercised at unit level only; Windows and Darwin branches are not compiled'],
 )
@@ -316,7 +316,7 @@ PROPS['C10'] = dict(
          'QR=0, RD=1, one question, plain OPT record at most, name within -M and under the domain. non-trivial iff multi-string TXT / multi-record / long '
          'name / auxiliary answer (a, b) or > 20 client queries (c)',
     exhaustive_text='write_dns: 7 record types x 5 codec letters x 3 query-name lengths x every payload length 1..4096 (thorough) or 1..300 + windows at multiples of 252 + 1/7 sample (quick)',
-    engine_text='rapidcheck over choice tapes + length sweeps; glue pair, simnet (real iodined, real iodine), strict reference parser ref/refdns.cc',
+    engine_text='rapidcheck over choice tapes + length sweeps; glue pair, simnet (real iodined, real iodine), strict reference parser ref/refdns.cc; every answer record under the tunnel domain carries the query type (A may be answered by CNAME)',
     bounds='payload <= 4096, names <= 253 characters', trusted_base=TB_SIM + ['glue/glue_server.c (signature of write_dns)'],
     assumptions=AS_SIM + ['queries whose labels contain "." or NUL are outside the property (iodine represents names as dotted C strings)'],
 )
@@ -332,7 +332,7 @@ PROPS['C05'] = dict(
          'pointers to or past the end, pointer pairs, reserved label types, unterminated, 255+ octets, labels of bytes >= 0x80 / NUL / dot / shell characters, '
          'junk records, truncation, trailing garbage), protocol messages with adversarial userids / hashes / arguments, raw-mode frames of any command nibble and '
          'length up to 65 KB, raw login / ping / data frames of the attacker\'s own session cut after 3..19 bytes (in half of them the rest of the complete frame is still in the receive buffer), '
-         'tun packets of 0..65000 bytes for any destination, a command letter followed by up to 240 arbitrary bytes, time steps. Oracle: (i) '
+         'tun packets of 0..65000 bytes for any destination, a command letter followed by up to 240 arbitrary bytes, polls of a logged-in session, queue churn (bursts of small packets for one session with polls in between, so that its queue of four wraps), time steps. Oracle: (i) '
          'no sanitizer report, server still running and back in select() (scheduler step bound + 20 s wall-clock watchdog per case); (ii) every honest session '
          'active within 58 s sends a fresh one-fragment packet: written unchanged to the server tun device and acknowledged in a well-formed answer. Steps that '
          'may legitimately act for an honest session (its own address; a correct raw login; anything when source checking is off) are excluded by construction. '
@@ -364,7 +364,7 @@ PROPS['C06'] = dict(
          '(ii) spoofed data answers carrying a complete valid packet with an id outside the three most recent ids or a first name character other than P/p/'
          'userid are never written to the tun device (controls with matching id and character are counted when delivered). non-trivial iff a hostile answer hit a '
          'step after the login, or an MX/SRV answer had >= 17 records, or an RDLENGTH lied',
-    engine_text='rapidcheck over choice tapes + libFuzzer; simnet hosting the real iodine client; scripted reference server; ASan+UBSan',
+    engine_text='rapidcheck over choice tapes + libFuzzer; simnet hosting the real iodine client; scripted reference server; ASan+UBSan; 1 case in 6: half-matching handshake replies (right id under another step\'s name, or right name under a wrong id, valid but different payload) in front of honest answers: the handshake must complete with the honest values',
     bounds='<= 150 virtual s, <= 400 hostile answers per case', trusted_base=TB_SIM,
     assumptions=AS_SIM + ['uninitialised reads are not detectable (no MSan-instrumented C++ runtime here)'],
 )
@@ -401,7 +401,7 @@ PROPS['C11'] = dict(
          'written to the peer tun byte-identically and in order, nothing else is written, and the client keeps running. (B): if an allowed record type exists (and a forced '
          'option itself survives the profile) the handshake must succeed. non-trivial iff the profile is not the identity and the negotiated tuple differs from '
          '(NULL, Base128, fragment >= 1000)',
-    engine_text='rapidcheck over choice tapes; simnet hosting real iodine + real iodined; relay actor built on ref/refdns.cc',
+    engine_text='rapidcheck over choice tapes; simnet hosting real iodine + real iodined; relay actor built on ref/refdns.cc; 1 case in 4 with 10..15 pre-occupied slots (user number 10..15)',
     bounds='<= 400 virtual s of handshake, 12 packets', trusted_base=TB_SIM,
     assumptions=AS_SIM + ['only fixed (length-independent) transformations; raw UDP mode is skipped (-r) because it bypasses the DNS path the property is about'],
 )
